@@ -85,6 +85,67 @@ func (C08) Gen(r *core.Rng, tier string, emit func(string)) {
 	// answer is read before the replacement and delivered after it, while a new-version request asks for the same range
 	emit("srvscript 64 P:a:2 S:/a/1/0/0.mvt V:0:ok V:0:ok V:0:okhold P:a:8 S:/a/metadata V:0:ok V:0:ok V:0:ok V:0:ok V:0:ok S:/a/1/0/0.mvt V:0:ok V:0:ok R:0 A")
 	emit("srvscript 64 P:a:2 S:/a/2/1/1.mvt V:0:ok V:0:ok V:0:okhold P:a:8 S:/a.json V:0:ok V:0:ok V:0:ok V:0:ok V:0:ok S:/a/2/1/1.mvt V:0:ok R:0 A")
+	// a second replacement lands inside the retry of a request that already met the first one: after j
+	// bucket calls of the retried request (header, leaf directory, tile) the archive changes again
+	for _, vs := range [][3]int{{1, 2, 3}, {2, 3, 4}, {3, 5, 7}, {2, 4, 9}} {
+		for _, tile := range []string{"/a/1/0/0.mvt", "/a/2/3/3.mvt", "/a/0/0/0.mvt", "/a/metadata"} {
+			for j := 1; j <= 5; j++ {
+				ops := []string{fmt.Sprintf("P:a:%d", vs[0]), "S:" + tile, "A", fmt.Sprintf("P:a:%d", vs[1]), "S:" + tile}
+				for k := 0; k < j; k++ {
+					ops = append(ops, "V:0:ok")
+				}
+				ops = append(ops, fmt.Sprintf("P:a:%d", vs[2]), "A", "S:"+tile, "A")
+				emit(fmt.Sprintf("srvscript 64 %s", strings.Join(ops, " ")))
+			}
+		}
+	}
+	// archives without a metadata section (zero length is legal with uncompressed internals): cached, then replaced
+	for _, vs := range [][2]int{{2, 4}, {4, 3}, {6, 2}} {
+		for _, q := range []string{"/a/metadata", "/a/1/0/0.mvt"} {
+			ops := []string{fmt.Sprintf("P:a:%d:nometa", vs[0]), "S:" + q, "A", "S:/a/metadata", "A", fmt.Sprintf("P:a:%d", vs[1]), "S:/a/metadata", "A", "S:" + q, "A"}
+			emit(fmt.Sprintf("srvscript 64 %s", strings.Join(ops, " ")))
+			ops = []string{fmt.Sprintf("P:a:%d", vs[1]), "S:/a/metadata", "A", fmt.Sprintf("P:a:%d:nometa", vs[0]), "S:/a/metadata", "A", "S:" + q, "A"}
+			emit(fmt.Sprintf("srvscript 1 %s", strings.Join(ops, " ")))
+		}
+	}
+	// the real backends (local directory, HTTP origin) behind the real NewServer: sequential replacement histories
+	nReal := 24
+	if tier == "thorough" {
+		nReal = 400
+	}
+	// versions of exactly the same size (metadata padded) but different layout, replaced within the same second
+	for _, vs := range [][2]int{{2, 4}, {4, 2}, {2, 6}, {6, 4}, {8, 10}} {
+		la, lb := len(scriptArchive("a", vs[0], false)), len(scriptArchive("a", vs[1], false))
+		n := la
+		if lb > n {
+			n = lb
+		}
+		n += 3
+		for _, be := range []string{"file", "http"} {
+			for _, cache := range []int{64, 1} {
+				emit(fmt.Sprintf("srvreal %s %d P:a:%d:size%d S:/a/1/0/0.mvt S:/a/2/3/3.mvt S:/a/metadata P:a:%d:size%d S:/a/1/0/0.mvt S:/a/2/3/3.mvt S:/a/metadata S:/a/2/1/1.mvt", be, cache, vs[0], n, vs[1], n))
+			}
+		}
+	}
+	for i := 0; i < nReal; i++ {
+		ops := []string{fmt.Sprintf("P:a:%d", 1+r.Intn(9))}
+		if r.Bool() {
+			ops = append(ops, fmt.Sprintf("P:b:%d", 1+r.Intn(9)))
+		}
+		for k := 0; k < 3+r.Intn(8); k++ {
+			switch r.Intn(4) {
+			case 0:
+				ops = append(ops, fmt.Sprintf("P:%s:%d", []string{"a", "a", "b"}[r.Intn(3)], 1+r.Intn(12)))
+			default:
+				p := srvPaths[r.Intn(len(srvPaths))]
+				if r.Chance(1, 4) {
+					p = strings.Replace(p, "/a", "/b", 1)
+				}
+				ops = append(ops, "S:"+p)
+			}
+		}
+		emit(fmt.Sprintf("srvreal %s %d %s", []string{"file", "http"}[i%2], []int{64, 1, 0}[r.Intn(3)], strings.Join(ops, " ")))
+	}
 	for i := 0; i < n; i++ {
 		ops := randScript(r, []string{"a"}, 1+r.Intn(4), r.Intn(4), []string{"ok", "ok", "ok", "okhold"})
 		if i%3 == 0 {
@@ -103,13 +164,17 @@ func (C08) RunGo(line string) string {
 	if t[0] == "srvtrace" {
 		return traceSummary(line)
 	}
+	if t[0] == "srvreal" {
+		cacheMB, _ := strconv.Atoi(t[2])
+		return runSrvReal(t[1], cacheMB, t[3:])
+	}
 	cacheMB, _ := strconv.Atoi(t[1])
 	res := runScript(cacheMB, t[2:], true)
 	return fmt.Sprintf("hangs=%d %s", res.hangs, fmtResps(res.reqs))
 }
 
 func (C08) Agree(line, goOut, modelOut string) bool {
-	return strings.HasPrefix(line, "srvscript") || goOut == modelOut
+	return strings.HasPrefix(line, "srvscript") || strings.HasPrefix(line, "srvreal") || goOut == modelOut
 }
 
 func (C08) NonTrivial(line string) bool {
@@ -119,7 +184,7 @@ func (C08) NonTrivial(line string) bool {
 	}
 	seenV := false
 	for _, op := range t[2:] {
-		if strings.HasPrefix(op, "V:") {
+		if strings.HasPrefix(op, "V:") || (t[0] == "srvreal" && strings.HasPrefix(op, "S:")) {
 			seenV = true
 		}
 		if strings.HasPrefix(op, "P:") && seenV {
@@ -128,7 +193,13 @@ func (C08) NonTrivial(line string) bool {
 	}
 	return false
 }
-func (C08) Branch(line, goOut string) string { return strings.Fields(line)[0] }
+func (C08) Branch(line, goOut string) string {
+	t := strings.Fields(line)
+	if t[0] == "srvreal" {
+		return "srvreal " + t[1]
+	}
+	return t[0]
+}
 
 // judge one executed script against "every response is what ONE version answers"
 func judgeVersions(res scriptResult, allowFaultFailures bool) string {
@@ -154,6 +225,15 @@ func judgeVersions(res scriptResult, allowFaultFailures bool) string {
 			}
 		}
 		isFailure := rq.status >= 500 || rq.status == 499 || (rq.status == 404 && strings.Contains(string(rq.body), "Archive not found"))
+		existed := false // some version of the archive was stored at some point of the request
+		for _, v := range hist {
+			if v.born <= rq.end && (v.died == -1 || v.died >= rq.start) {
+				existed = true
+			}
+		}
+		if isFailure && !existed && rq.status == 404 {
+			continue // not uploaded yet (or deleted): "Archive not found" is the truthful answer
+		}
 		if isFailure {
 			if !touched && !allowFaultFailures && len(hist) > 0 {
 				return fmt.Sprintf("request %s (ops %d..%d) failed with %d although no replacement of the archive happened during it", rq.path, rq.start, rq.end, rq.status)
@@ -186,6 +266,9 @@ func judgeVersions(res scriptResult, allowFaultFailures bool) string {
 
 func (C08) Oracle(line, goOut string) string {
 	t := strings.Fields(line)
+	if t[0] == "srvreal" {
+		return judgeReal(t[3:], goOut, false)
+	}
 	if t[0] != "srvscript" {
 		return ""
 	}
@@ -213,6 +296,21 @@ func (C09) Gen(r *core.Rng, tier string, emit func(string)) {
 	big := []string{"P:big:1:big", "S:/big/0/0/0.mvt", "A", "S:/big/8/0/0.mvt", "A", "S:/big/8/100/100.mvt", "A", "S:/big/8/200/200.mvt", "S:/big/8/0/1.mvt", "V:1:ok", "V:0:ok", "A", "S:/big/0/0/0.mvt", "A"}
 	emit(traceLine(1, big))
 	emit("srvscript 1 " + strings.Join(big, " "))
+	// two requests meet a replaced archive at once: the second retry arrives while the first retry's header
+	// fetch is still in flight and must join it (one fetch per miss)
+	for _, cache := range []int{64, 1, 0} {
+		for _, ts := range [][2]string{{"/a/1/0/0.mvt", "/a/2/3/3.mvt"}, {"/a/0/0/0.mvt", "/a/1/1/1.mvt"}, {"/a/1/0/0.mvt", "/a/1/0/0.mvt"}} {
+			ops := []string{"P:a:1", "S:" + ts[0], "A", "S:" + ts[1], "A", "P:a:2", "S:" + ts[0], "S:" + ts[1], "V:0:ok", "V:0:ok", "V:0:ok", "A"}
+			emit(traceLine(cache, ops))
+			emit(fmt.Sprintf("srvscript %d %s", cache, strings.Join(ops, " ")))
+		}
+		// asked for before it is uploaded, then uploaded: the earlier miss must not be remembered
+		for _, q := range []string{"/a/0/0/0.mvt", "/a/metadata", "/a.json"} {
+			ops := []string{"S:" + q, "A", "S:" + q, "A", "P:a:1", "S:" + q, "A", "S:/a/1/0/0.mvt", "A"}
+			emit(traceLine(cache, ops))
+			emit(fmt.Sprintf("srvscript %d %s", cache, strings.Join(ops, " ")))
+		}
+	}
 	for i := 0; i < n; i++ {
 		names := []string{"a", "b", "c"}[:1+r.Intn(3)]
 		ops := randScript(r, names, 1+r.Intn(8), 0, []string{"ok"})
@@ -245,6 +343,9 @@ func (C09) Oracle(line, goOut string) string {
 			if (f[0] == "resp" || f[0] == "req") && limit >= 1 && tot >= limit {
 				return fmt.Sprintf("event %d: reported cache size %d reaches the configured limit %d", i, tot, limit)
 			}
+			if (f[0] == "resp" || f[0] == "req") && limit == 0 && tot > 0 {
+				return fmt.Sprintf("event %d: cache limit is 0 but %d bytes stay cached after the event", i, tot)
+			}
 		}
 		return ""
 	}
@@ -253,11 +354,14 @@ func (C09) Oracle(line, goOut string) string {
 	if m := judgeVersions(res, false); m != "" {
 		return "not transparent: " + m
 	}
+	if len(res.dups) > 0 {
+		return "two identical header/directory fetches were in flight at the same time (concurrent misses must share one fetch): " + res.dups[0]
+	}
 	// uncached oracle: one version per archive here
 	for _, rq := range res.reqs {
 		name := pathName(rq.path)
 		hist := res.hist[name+".pmtiles"]
-		if len(hist) == 1 {
+		if len(hist) == 1 && hist[0].born <= rq.start {
 			st, body := answerOf(hist[0].bytes, name, rq.path)
 			if st != rq.status || (st == 200 && !bytes.Equal(body, rq.body)) {
 				return fmt.Sprintf("response to %s is (%d, %q); an uncached lookup gives (%d, %q)", rq.path, rq.status, trunc(string(rq.body), 40), st, trunc(string(body), 40))
@@ -346,6 +450,31 @@ func (C10) Gen(r *core.Rng, tier string, emit func(string)) {
 			}
 		}
 	}
+	// persistent faults: every read of the tile data keeps failing the same way (e.g. an object truncated inside
+	// the tile data: 416 for that tile, for ever) — the request must end in an error, not retry for ever
+	for _, cache := range []int{64, 0} {
+		for _, f := range []string{"e416", "e412", "err", "short"} {
+			for _, p := range []string{"/a/1/0/0.mvt", "/a/2/1/1.mvt"} {
+				ops := []string{"P:a:1", "Z:a:" + f, "S:" + p, "A", "S:" + p, "A", "Z:a:ok"}
+				ops = append(ops, suffix(1, []string{p, "/a/1/0/0.mvt"})...)
+				emit(fmt.Sprintf("srvscript %d %s", cache, strings.Join(ops, " ")))
+				ops = []string{"P:a:2", "S:" + p, "A", "Z:a:" + f, "S:" + p, "A", "Z:a:ok"}
+				ops = append(ops, suffix(2, []string{p})...)
+				emit(fmt.Sprintf("srvscript %d %s", cache, strings.Join(ops, " ")))
+			}
+		}
+	}
+	// real backends: the HTTP origin goes away (connection refused), resets a connection, comes back; the local
+	// directory loses, truncates and regains the file
+	for _, cache := range []int{64, 0} {
+		for _, p := range []string{"/a/1/0/0.mvt", "/a/metadata", "/a.json"} {
+			emit(fmt.Sprintf("srvreal http %d K:down S:%s S:%s K:up P:a:1 S:%s S:/a/2/1/1.mvt", cache, p, p, p))
+			emit(fmt.Sprintf("srvreal http %d P:a:1 S:%s K:down S:%s S:/a/2/1/1.mvt P:a:2 K:up S:%s S:/a/2/1/1.mvt", cache, p, p, p))
+			emit(fmt.Sprintf("srvreal http %d P:a:1 K:reset S:%s S:%s K:reset S:/a/2/1/1.mvt S:/a/2/1/1.mvt", cache, p, p))
+			emit(fmt.Sprintf("srvreal file %d S:%s P:a:1 S:%s P:a:1:del S:%s P:a:1:trunc140 S:%s S:/a/2/1/1.mvt P:a:2 S:%s S:/a/2/1/1.mvt", cache, p, p, p, p, p))
+			emit(fmt.Sprintf("srvreal http %d P:a:2 S:%s P:a:2:garbage200 S:%s P:a:2:trunc127 S:%s P:a:3 S:%s S:/a/1/1/1.mvt", cache, p, p, p, p))
+		}
+	}
 	// malformed objects
 	mods := []string{"garbage3", "garbage200", "garbage20000", "del"}
 	full := len(scriptArchive("a", 1, false))
@@ -392,6 +521,10 @@ func (C10) RunGo(line string) string {
 	if t[0] == "srvtrace" {
 		return traceSummary(line)
 	}
+	if t[0] == "srvreal" {
+		cacheMB, _ := strconv.Atoi(t[2])
+		return runSrvReal(t[1], cacheMB, t[3:])
+	}
 	cacheMB, _ := strconv.Atoi(t[1])
 	out, _ := runScriptChild(cacheMB, t[2:])
 	return out
@@ -404,7 +537,7 @@ func (C10) NonTrivial(line string) bool {
 			return true
 		}
 	}
-	return strings.Contains(line, ":trunc") || strings.Contains(line, ":corrupt") || strings.Contains(line, ":garbage")
+	return strings.Contains(line, ":trunc") || strings.Contains(line, ":corrupt") || strings.Contains(line, ":garbage") || strings.Contains(line, " Z:") || strings.Contains(line, " K:")
 }
 
 func (C10) Oracle(line, goOut string) string {
@@ -423,6 +556,38 @@ func (C10) Oracle(line, goOut string) string {
 				return fmt.Sprintf("event %d: a failed fetch changed the cache (size %s→%s, entries %s→%s)", i, prev[5], f[5], prev[6], f[6])
 			}
 			prev = f
+		}
+		return ""
+	}
+	if t[0] == "srvreal" {
+		if m := judgeReal(t[3:], goOut, true); m != "" {
+			return m
+		}
+		// recovery: the requests after the last K:up / plain upload must succeed
+		ops := t[3:]
+		last := -1
+		for i, op := range ops {
+			if op == "K:up" || (strings.HasPrefix(op, "P:") && strings.Count(op, ":") == 2) {
+				last = i
+			}
+			if op == "K:down" || op == "K:reset" || (strings.HasPrefix(op, "P:") && strings.Count(op, ":") > 2) {
+				last = -1
+			}
+		}
+		if last >= 0 {
+			ri := 0
+			toks := strings.Fields(goOut)
+			for i, op := range ops {
+				if strings.HasPrefix(op, "S:") {
+					if i > last && ri < len(toks) {
+						st, _ := strconv.Atoi(toks[ri][strings.Index(toks[ri], "=")+1 : strings.Index(toks[ri], ":")])
+						if st >= 500 || st == 499 {
+							return fmt.Sprintf("after the origin was back, %s still fails with %d", op[2:], st)
+						}
+					}
+					ri++
+				}
+			}
 		}
 		return ""
 	}
@@ -536,6 +701,9 @@ func isRecoveryReq(ops []string, i, lastRestore int) bool {
 			return false
 		}
 		if strings.HasPrefix(ops[k], "P:") && strings.Count(ops[k], ":") > 2 {
+			return false
+		}
+		if strings.HasPrefix(ops[k], "Z:") && !strings.HasSuffix(ops[k], ":ok") {
 			return false
 		}
 	}
